@@ -308,6 +308,25 @@ CLAIMED = {
        "multitask strategies and the natural distributions' forward are bounded-tier only. Known findings (8 groups, e.g. orthogonally decoupled "
        "mean / KL, batch-decoupled KL constant, grid strategy's hard-coded prior jitter, CIQ + natural) are listed in known_findings.json.",
   technique="contract-based deductive verification: AST-extracted real functions, elementwise tensor domain with binder-free (nested) sums, Cholesky / solve as callee contracts, z3"),
+ "C08": dict(
+  category="other",
+  text="Proof tier (counted): element b of a batched output stated as a function of the b-th slices only, with a SYMBOLIC batch extent -- the same "
+       "formula the non-batched contracts prove: kernel matrices K[b,i,j] for RBF, Matern (3 nu), RQ, Periodic (ARD and not, x1 = x2 and not, diag), "
+       "Cosine, Linear, Polynomial, Constant, Scale; Constant / Zero / Linear means for every parameter / data batch pattern; Gaussian marginal, "
+       "expected_log_prob, log_marginal, forward with batched noise; ExactMarginalLogLikelihood (priors, added losses) with no reduction across batch "
+       "elements; MultivariateNormal.log_prob (9 broadcast patterns), KL, variance; IndependentModelList returns exactly its members' outputs, each "
+       "called once on its own arguments; SumMarginalLogLikelihood = mean of the members, per batch element for batched members; Kernel.__getitem__ of a "
+       "wrapper kernel whose batch shape comes from its sub-kernel returns a NEW kernel holding sub_kernel[i] (and its own indexed parameter), the "
+       "source untouched. Bounded tier (not counted): batched object vs per-element replicas (parameter slices copied tensor by tensor) for 46 kernel "
+       "configurations, means, likelihoods, exact GPs, every variational strategy, MLL / ELBO / PLL, model lists, over all 25 pairs of parameter / "
+       "data batch shapes from {(), (2,), (3,1), (1,2), (3,2)}.",
+  design_ref="DESIGN.md section 5, C08",
+  note="The proof tier re-runs the C05 / C12 / C02 / C10 harnesses at batch rank 1 (rank-2 batches and mixed ranks are bounded-tier only). The "
+       "bounded tier shows that batching is only reliable when parameter and data batch shapes MATCH: 13 groups of known findings (batch indexing "
+       "of lazy kernel tensors and kernels, parameters not broadcast against data of another batch shape for several kernels / means / likelihoods, "
+       "un-broadcast prior means, HammingIMQ, batch-decoupled strategy, log priors summed over the batch in the approximate MLLs) are listed in "
+       "known_findings.json; exact / multitask / variational models with matching batch shapes, model lists and SumMLL agree with their replicas.",
+  technique="contract-based deductive verification: AST-extracted real functions, elementwise tensor domain with a symbolic batch index, modular callee contracts, z3"),
 }
 REASON_NOT_BUILT = "contracts for this property are not built yet in this revision (see DESIGN.md section 9 build order); not claimed until its obligations are discharged by the checker"
 
